@@ -10,20 +10,36 @@ type conditionPart struct {
 	expr ast.Expression
 	op   string
 	isOp bool
+	// comments of the flattened inner && / || nodes: before their first, behind their last operand
+	leading  ast.Comments
+	trailing ast.Comments
 }
 
 // collectCompoundConditionParts flattens top-level && and || into a linear list.
 // Grouped expressions are treated as a single operand so nested formatting can be handled separately.
 func collectCompoundConditionParts(expr ast.Expression, parts *[]conditionPart) bool {
+	return collectConditionParts(expr, parts, false)
+}
+
+func collectConditionParts(expr ast.Expression, parts *[]conditionPart, inner bool) bool {
 	switch t := expr.(type) {
 	case *ast.GroupedExpression:
 		*parts = append(*parts, conditionPart{expr: expr})
 		return false
 	case *ast.InfixExpression:
 		if t.Operator == "&&" || t.Operator == "||" {
-			collectCompoundConditionParts(t.Left, parts)
+			start := len(*parts)
+			collectConditionParts(t.Left, parts, true)
 			*parts = append(*parts, conditionPart{isOp: true, op: t.Operator})
-			collectCompoundConditionParts(t.Right, parts)
+			collectConditionParts(t.Right, parts, true)
+			// The node itself disappears in the flat list: keep its comments
+			// (`a && b /* c */ || d`: the comment trails the inner && node).
+			// The comments of the outermost node are printed by withNodeComments().
+			if inner {
+				(*parts)[start].leading = append(append(ast.Comments{}, t.Leading...), (*parts)[start].leading...)
+				end := len(*parts) - 1
+				(*parts)[end].trailing = append((*parts)[end].trailing, t.Trailing...)
+			}
 			return true
 		}
 	}
@@ -71,12 +87,15 @@ func (f *Formatter) formatConditionLines(expr ast.Expression) ([]string, bool, b
 
 		var operands []ast.Expression
 		var ops []string
+		var leads, trails []ast.Comments
 		for _, part := range parts {
 			if part.isOp {
 				ops = append(ops, part.op)
 				continue
 			}
 			operands = append(operands, part.expr)
+			leads = append(leads, part.leading)
+			trails = append(trails, part.trailing)
 		}
 
 		if len(operands) == 0 || len(operands) != len(ops)+1 {
@@ -89,6 +108,12 @@ func (f *Formatter) formatConditionLines(expr ast.Expression) ([]string, bool, b
 			opLines, _, opPreserve := f.formatConditionLines(operand)
 			if len(opLines) == 0 {
 				continue
+			}
+			if v := f.formatComment(leads[i], " ", 0); v != "" {
+				opLines[0] = v + opLines[0]
+			}
+			if v := strings.TrimSpace(f.formatComment(trails[i], " ", 0)); v != "" {
+				opLines[len(opLines)-1] += " " + v
 			}
 			if i < len(ops) {
 				opLines[len(opLines)-1] = opLines[len(opLines)-1] + " " + ops[i]
